@@ -80,6 +80,8 @@ pub enum Funds {
     WrongDenom,
     /// one coin of a denom that differs from the configured one only in letter case
     CaseDenom,
+    /// (cw20 configurations) one native coin whose bank denom is spelled exactly like the token address
+    TokenNamedDenom,
     TwoDenoms,
     None,
 }
@@ -275,6 +277,7 @@ impl StakeModel {
             Funds::Right(x) => vec![coin(x.0, DENOM)],
             Funds::WrongDenom => vec![coin(1, OTHER)],
             Funds::CaseDenom => vec![coin(1, CASED)],
+            Funds::TokenNamedDenom => vec![coin(1, a(TOKEN))],
             Funds::TwoDenoms => vec![coin(1, OTHER), coin(1, DENOM)],
             Funds::None => vec![],
         }
@@ -286,6 +289,7 @@ fn label(act: &Act) -> &'static str {
         Act::Bond { funds: Funds::Right(_), .. } => "Bond(native)",
         Act::Bond { funds: Funds::WrongDenom, .. } => "Bond(wrong denom)",
         Act::Bond { funds: Funds::CaseDenom, .. } => "Bond(denom differing in letter case)",
+        Act::Bond { funds: Funds::TokenNamedDenom, .. } => "Bond(native coin named like the token address)",
         Act::Bond { funds: Funds::TwoDenoms, .. } => "Bond(two denoms)",
         Act::Bond { funds: Funds::None, .. } => "Bond(no funds)",
         Act::Cw20Bond { token: 0, .. } => "Send{Bond}(configured token)",
@@ -347,6 +351,7 @@ impl Model for StakeModel {
             // native coins named like the stake denom: bonding them must be refused
             for i in 0..2 {
                 w.set_balance(&a(ACTORS[i]), DENOM, 1);
+                w.set_balance(&a(ACTORS[i]), &a(TOKEN), 2);
             }
         } else {
             for i in 0..3 {
@@ -399,6 +404,7 @@ impl Model for StakeModel {
                 }
                 if cfg.adversarial {
                     out.push(Act::Bond { u, funds: Funds::Right(Amt(1)) });
+                    out.push(Act::Bond { u, funds: Funds::TokenNamedDenom });
                     out.push(Act::Bond { u, funds: Funds::None });
                 }
             } else {
